@@ -277,6 +277,8 @@ def check(tier, seed, only=None, skip_a=False, skip_b=False):
       ths = [h for h in ths if only in h.name]
     if ths:
       cov_t, f_t, u_t, e_t = framework.run_tier_a(PROP, ths)
+      from contracts import callee
+      cov["assumed_callee_contracts"] = callee.assumed("ClockTime.from_seconds")
       for k in ("obligations", "discharged", "harnesses", "paths", "reachability_probes", "reachable"):
         cov[k] = cov.get(k, 0) + cov_t.get(k, 0)
       for k in ("solver_time_s", "explore_time_s"):
